@@ -269,6 +269,24 @@ Proof.
     step_cases H. intros c0. pose proof (HA c0) as HA0. unfold ind in *. cbn in *. exact HA0.
 Qed.
 
+(** ... and conversely: the lock is held only by a thread inside a locked region (every way out
+    of one — success, error, crash — releases it) *)
+Definition I_held (s : state) : Prop :=
+  forall t, lock s = Some t -> holds_lock_pc (pcof s t) = true.
+
+Lemma I_held_step s l s' : I_lock s -> I_held s -> step s l = Some s' -> I_held s'.
+Proof.
+  intros HI HH H. step_cases H; pc_tests; intros t0 Ht0; cbn in *; crash_norm; cbn in *; upd_all; cbn in *;
+    bool_cases; res_cases; cbn in *;
+    try discriminate; try reflexivity; try (apply HH; assumption); try congruence.
+  all: try (injection Ht0 as <-; congruence).
+  all: try (match goal with Hl : lock _ = Some ?u |- _ =>
+              let X := fresh in pose proof (HH u Hl) as X; rw_pcs; cbn in X; discriminate X end).
+  all: try (pose proof (HH t0 Ht0) as X; rewrite ?Heqp, ?Heqp0 in X; cbn in X; try discriminate X; use_lock HI; congruence).
+  all: try (destruct (lock s) as [h|] eqn:HLK; [|discriminate]; destruct (Nat.eqb_spec h t); [discriminate|];
+            injection Ht0 as ->; try congruence; apply HH; assumption).
+Qed.
+
 (* ------------------------------------------------------------------ account numbers are the CA's *)
 
 Definition ok (s : state) (c : ca) (a : acct) : Prop := 1 <= a <= created s c.
@@ -510,4 +528,25 @@ Proof.
   destruct (inv_Q _ H c Hd) as (_ & Q2 & _ & Q4).
   destruct (Q4 t m Hc Hp) as [E Hk]. destruct (Q2 _ Hk) as [Hr _].
   split; [congruence|]. destruct (slots s c) as [r k]. cbn in *. congruence.
+Qed.
+
+(* ------------------------------------------------------------------ the lock is given back *)
+
+Lemma I_held_reachable s : reachable s -> I_held s.
+Proof.
+  intros Hr. cut (Inv s /\ I_held s); [tauto|]. revert s Hr. apply reachable_ind.
+  - split; [exact Inv_init|]. intros t H. cbn in H. discriminate.
+  - intros s l s1 _ [HI HH] Hs. split; [eapply Inv_step; eassumption|].
+    eapply I_held_step; [exact (inv_lock _ HI)|exact HH|exact Hs].
+Qed.
+
+(** when no issuance is in flight (every thread has finished — with a certificate, an error or
+    a crash — or has not started), the registration lock is free: no path through
+    newACMEClientWithAccount or deleteAccountLocallyIfCurrent leaks it *)
+Theorem lock_free_when_quiescent s :
+  reachable s -> (forall t, finished (pcof s t) = true) -> lock s = None.
+Proof.
+  intros Hr Hq. destruct (lock s) as [t|] eqn:E; [|reflexivity].
+  pose proof (I_held_reachable _ Hr t E) as X. specialize (Hq t).
+  destruct (pcof s t); cbn in *; discriminate.
 Qed.
